@@ -380,6 +380,60 @@ fn a_generated_effect_serialize_maps_variant_b() {
     kani::cover!(true, "C09/generated-serialize/B/reached");
 }
 
+// ---- the legacy derive(Effect) on a Capabilities struct (crux_macros/src/effect_derive.rs), real expansion
+mod legacy_effect {
+    use crate::capability::CapabilityContext;
+    use crate::macros::{Capability, Effect};
+    use crate::render::Render;
+
+    pub enum Event {
+        #[allow(dead_code)]
+        Nothing,
+    }
+
+    #[derive(Capability)]
+    pub struct CapB<Ev> {
+        #[allow(dead_code)]
+        context: CapabilityContext<super::OpB, Ev>,
+    }
+    impl<Ev> CapB<Ev> {
+        pub fn new(context: CapabilityContext<super::OpB, Ev>) -> Self {
+            Self { context }
+        }
+    }
+
+    #[derive(Effect)]
+    #[allow(dead_code)]
+    pub struct Capabilities {
+        pub render: Render<Event>,
+        pub b: CapB<Event>,
+    }
+}
+
+#[kani::proof]
+fn a_derived_effect_serialize_maps_capability_variant() {
+    use crate::Effect as _;
+    let rec = Rec::new();
+    let c = rec.clone();
+    let op: u16 = kani::any();
+    let eff = legacy_effect::Effect::CapB(Request::resolves_once(OpB(op), move |o: u8| c.record(o as u64)));
+    let (ffi, rs) = eff.serialize();
+    assert!(matches!(ffi, legacy_effect::EffectFfi::CapB(OpB(x)) if x == op), "C09/derived-serialize/CapB/same-named-variant-same-payload");
+    assert!(rs.kind() == 1, "C09/derived-serialize/CapB/arity-preserved");
+    assert!(rec.calls() == 0, "C09/derived-serialize/CapB/continuation-not-called");
+    kani::cover!(true, "C09/derived-serialize/CapB/reached");
+}
+
+#[kani::proof]
+fn a_derived_effect_serialize_maps_render_variant() {
+    use crate::Effect as _;
+    let eff = legacy_effect::Effect::Render(Request::resolves_never(crate::render::RenderOperation));
+    let (ffi, rs) = eff.serialize();
+    assert!(matches!(ffi, legacy_effect::EffectFfi::Render(crate::render::RenderOperation)), "C09/derived-serialize/Render/same-named-variant");
+    assert!(rs.kind() == 0, "C09/derived-serialize/Render/arity-preserved");
+    kani::cover!(true, "C09/derived-serialize/Render/reached");
+}
+
 // ---- the Command API's notification (command/context.rs:38-50)
 // crossbeam's send cannot be compiled by Kani (ICE, DESIGN 2.2); it is stubbed out: the request
 // is captured where the real code converts it into the effect (`request.into()`), so the
